@@ -7,8 +7,11 @@ import ilshape
 MIX = ("mix", -1)
 
 
+ASSUME = {}      # width assumptions of the current evaluation (symbolic width -> integer), set by the caller
+
+
 def width(e):
-    w = ilshape.wnorm(e[1], {})
+    w = ilshape.wnorm(e[1], ASSUME)
     return w if isinstance(w, int) else None
 
 
@@ -80,6 +83,21 @@ def bits(e):
         if op == "Shl":
             return ([0] * min(k, w) + a)[:w]
         return (a[k:] + [0] * w)[:w]
+    if op == "Cmplts" and len(args) == 2 and cfold(args[1]) == 0:
+        x = bits(args[0])
+        return [x[-1]] if x else [None]
+    if op in ("Add", "Sub") and len(args) == 2:
+        a, b = bits(args[0]), bits(args[1])
+        if a is None or b is None:
+            return [None] * w
+        # both operands zero-extended from n bits: the sum occupies n+1 bits, the difference sign-extends its borrow
+        n = max((max([i for i, x in enumerate(v) if x != 0] or [-1]) + 1) for v in (a, b))
+        if n < w:
+            ident = "%s#%x" % (op.lower(), hash(e[2]) & 0xffffff)
+            if op == "Add":
+                return [(ident, i) for i in range(n)] + [(ident + ".carry", 0)] + [0] * (w - n - 1)
+            return [(ident, i) for i in range(n)] + [(ident + ".borrow", 0)] * (w - n)
+        return [None] * w
     if op == "Ite" and len(args) == 3:
         c, t, f = args
         cb = None
